@@ -88,6 +88,12 @@ class Body:
                 # every variant has its own target: the `otherwise` edge cannot be taken (rustc often points it at a block shared with a real arm)
                 return out
             if t.get("bool"):
+                cv = d.get("val") if d["k"] == "const" else self._const_bool(dl)
+                if cv in ("true", "false"):
+                    # `if false { .. }` / `if true { .. }`: only one way out (the other block is dead code)
+                    want = 1 if cv == "true" else 0
+                    listed = {v: tg for (v, tg) in t["targets"]}
+                    return [(listed.get(want, t["otherwise"]), None)]
                 for (v, tg) in t["targets"]:
                     out.append((tg, ("bool", v != 0, dl)))
                 # the otherwise edge of a bool switch is the value not listed
@@ -99,6 +105,30 @@ class Body:
             out.append((t["otherwise"], ("val-otherwise", tuple(v for v, _ in t["targets"]), dl)))
             return out
         return []
+
+    def _const_bool(self, local):
+        """'true'/'false' when the local is a compiler temporary assigned exactly once, from a literal (the scrutinee of `if false`), else None.
+        Named variables are left alone: `let mut done = false; .. done = true` is state, not a literal condition."""
+        if local is None:
+            return None
+        if not hasattr(self, "_cb"):
+            self._cb = {}
+            cnt = collections.Counter()
+            for b in self.j["blocks"]:
+                for st in b["stmts"]:
+                    if not st["lhs"]["proj"]:
+                        cnt[st["lhs"]["local"]] += 1
+                        rv = st["rv"]
+                        if rv["k"] == "use" and rv["op"]["k"] == "const" and rv["op"].get("val") in ("true", "false"):
+                            self._cb[st["lhs"]["local"]] = rv["op"]["val"]
+                        else:
+                            self._cb.pop(st["lhs"]["local"], None)
+                            cnt[st["lhs"]["local"]] += 1
+                t = b["term"]
+                if t["k"] == "call" and t.get("dest") and not t["dest"]["proj"]:
+                    cnt[t["dest"]["local"]] += 2
+            self._cb = {l: v for l, v in self._cb.items() if cnt[l] == 1 and not self.j["locals"][l].get("name")}
+        return self._cb.get(local)
 
     def normal_blocks(self):
         return [b for b in self.j["blocks"] if not b["cleanup"]]
